@@ -415,6 +415,10 @@ func c15Judge(c c15Config, seq string) (bad, kind string) {
 	flamego.SetEnv(flamego.EnvType(c.Env))
 	w := build()
 	flamego.SetEnv(flamego.EnvType(c.Env))
+	// values SetEnv is documented to ignore: the environment stays what it was
+	flamego.SetEnv("staging")
+	flamego.SetEnv("")
+	flamego.SetEnv("Production")
 	var fresh c15Resp
 	if strings.Contains(seq, "N") {
 		fresh = build().serve("/n")
